@@ -18,6 +18,7 @@ MODDIR = os.path.join(common.SPEC, "tree")
 class GenericAdapter:
     name = "generic"
     typed = False
+    blkgrid = False
     NBLK = 0
 
     def __init__(self):
@@ -43,7 +44,7 @@ class GenericAdapter:
 
     def make(self, o):
         c = self.Node("n%d" % o)
-        c.setType("t%d" % (o % 3), self.flags_of(o))
+        c.setType(("t1x", "t1", "t2")[o % 3], self.flags_of(o))
         g = self.grids.CartesianGrid.fromRectangle(1.0, 1.0)
         g.armiObject = c
         c.spatialGrid = g
@@ -82,7 +83,15 @@ class GenericAdapter:
                 O[a["p"]].setChildren([O[x] for x in a["s"]])
             elif n == "MoveTo":
                 c = O[a["c"]]
-                c.moveTo(c.parent.spatialGrid[a["i"], 0, 0])
+                g = c.parent.spatialGrid
+                if self.typed and a["i"] == 1:
+                    # index 1 stands for a multi-cell locator (components with multiplicity > 1)
+                    ml = self.grids.MultiIndexLocation(g)
+                    ml.append(g[1, 0, 0])
+                    ml.append(g[2, 0, 0])
+                    c.moveTo(ml)
+                else:
+                    c.moveTo(g[a["i"], 0, 0])
             elif n == "Sort":
                 O[a["p"]].sort()
             elif n == "Reestablish":
@@ -148,7 +157,12 @@ class GenericAdapter:
             par.append(nid(o.parent))
             sl = o.spatialLocator
             att.append(bool(sl is not None and sl.grid is not None))
-            li = getattr(sl, "k" if self.typed else "i", None)
+            if isinstance(sl, self.grids.MultiIndexLocation):
+                li = sl[0].i if len(sl) else None
+            elif self.typed and w["orig"][n] <= 1 + self.NBLK:
+                li = getattr(sl, "k", None)  # blocks: axial index in the assembly grid
+            else:
+                li = getattr(sl, "i", None)
             loc.append(int(li) if li is not None and float(li) == int(li) else repr(li))
             chain = []
             x = o.parent
@@ -231,7 +245,23 @@ class TypedAdapter(GenericAdapter):
             x = blocks.HexBlock("blk", height=10.0)
         else:
             x = Circle("c%d" % o, "HT9", Tinput=25.0, Thot=25.0, od=float(o), id=0.0, mult=1)
-        x.setType("t%d" % (o % 3), self.flags_of(o))
+        x.setType(("t1x", "t1", "t2")[o % 3], self.flags_of(o))
+        return x
+
+
+class PinsAdapter(TypedAdapter):
+    """Typed family whose blocks carry a pin lattice (HexGrid); components sit on index or multi-index locators."""
+    name = "pins"
+    blkgrid = True
+
+    def owns_grid(self, o):
+        return o <= 1 + self.NBLK
+
+    def make(self, o):
+        x = TypedAdapter.make(self, o)
+        if 1 < o <= 1 + self.NBLK:
+            x.spatialGrid = self.grids.HexGrid.fromPitch(1.0)
+            x.spatialGrid.armiObject = x
         return x
 
 
@@ -287,16 +317,19 @@ FAMILIES = {
     # name: (adapter class, exhaustive cfg, emission cfg, trace cfg, trace constants (NOrig, N, NLoc))
     "generic": ("CompositeTree_mc%s.cfg", "CompositeTree_emit%s.cfg", "CompositeTree_trace.cfg", (5, 8, 3)),
     "typed": ("CompositeTree_typed_mc%s.cfg", "CompositeTree_typed_emit%s.cfg", "CompositeTree_typed_trace.cfg", (5, 8, 1)),
+    "pins": ("CompositeTree_pins_mc%s.cfg", "CompositeTree_pins_emit%s.cfg", "CompositeTree_pins_trace.cfg", (5, 8, 2)),
 }
 ACTIONS = {
     "generic": ("Add", "AddPresent", "Insert", "InsertPresent", "RemoveChild", "RemoveAbsentWhereItMatters", "SetChildrenAny", "RemoveAll", "MoveTo", "Sort", "Copy"),
     "typed": ("Add", "AddPresent", "AddWrongType", "Insert", "InsertPresent", "RemoveChild", "RemoveAbsentWhereItMatters", "SetChildrenAny", "RemoveAll", "Sort",
               "Reestablish", "Copy", "Replace"),
+    "pins": ("Add", "AddPresent", "AddWrongType", "Insert", "InsertPresent", "RemoveChild", "RemoveAbsentWhereItMatters", "SetChildrenAny",
+             "RemoveAll", "Sort", "Reestablish", "Copy", "MoveTo"),
 }
 
 
 def adapter(fam):
-    return TypedAdapter() if fam == "typed" else GenericAdapter()
+    return {"typed": TypedAdapter, "pins": PinsAdapter}.get(fam, GenericAdapter)()
 
 
 def run(rep, tier, seed):
@@ -350,7 +383,7 @@ def run(rep, tier, seed):
                         "expected_obs": e["obs"]})
 
         # 3. code -> spec: random long edit histories on bigger trees, validated by TLC against CompositeTree_trace
-        ntr = 400 if thorough else 100
+        ntr = 400 if thorough else 70
         traces = tracecheck_driver(ad, ntr, 40 if thorough else 25, seed, tconst)
         bad, stats = tracecheck.validate("CompositeTree_trace", tcfg, MODDIR, traces, timeout=3000)
         rep.add_tlc("trace-validation:" + fam, stats["tlc"])
@@ -402,7 +435,8 @@ def random_action(ad, w, rng, N, NL):
     typed = ad.typed
     kinds = ["Add", "Add", "Insert", "Insert", "Remove", "RemoveAll", "SetChildren", "Sort",
              "DeepCopy", "Pickle", "AddPresent", "InsertPresent", "RemoveAbsent"]
-    kinds += ["Reestablish", "AddWrongType", "Add", "Insert", "Replace"] if typed else ["MoveTo"]
+    pins = getattr(ad, "blkgrid", False)
+    kinds += (["Reestablish", "AddWrongType", "Add", "Insert"] + (["MoveTo", "MoveTo"] if pins else ["Replace"])) if typed else ["MoveTo"]
     kind = rng.choice(kinds)
 
     def kind_of(n):
@@ -466,11 +500,12 @@ def random_action(ad, w, rng, N, NL):
         rng.shuffle(cand)
         return {"n": kind, "p": p, "s": cand[: rng.randrange(0, 4)]}
     if kind == "MoveTo":
-        cs = [c for c in live if id(O[c]) in owner and O[c].parent is owner[id(O[c])]]
+        cs = [c for c in live if id(O[c]) in owner and O[c].parent is owner[id(O[c])] and (not typed or kind_of(c) == "cmp")]
         if not cs:
             return None
         c = rng.choice(cs)
-        cur = -1 if O[c].spatialLocator.grid is None else O[c].spatialLocator.i
+        sl0 = O[c].spatialLocator
+        cur = -1 if sl0.grid is None else (sl0[0].i if isinstance(sl0, ad.grids.MultiIndexLocation) and len(sl0) else sl0.i)
         i = rng.choice([i for i in range(NL) if i != cur])  # spec: enabled iff loc # i or not attached
         return {"n": kind, "c": c, "i": i}
     if kind == "Sort":
